@@ -55,6 +55,9 @@ T = [
     ("pow", "(** {0} {1} {2})", True, ()),
     ("lt", "(< {0} {1} {2})", True, ()),
     ("eq", "(= {0} {1})", True, ()),
+    ("eq-unary", "(= {0})", True, ()),
+    ("lt-unary", "(< {0})", True, ()),
+    ("is-unary", "(is {0})", True, ()),
     ("ne", "(!= {0} {1})", True, ()),
     ("in", "(in {0} {1})", True, ()),
     ("is", "(is {0} {1} {2})", True, (2,)),
@@ -121,7 +124,7 @@ FILL = ["{v}", "#* {v}", "#** {v}"]
 # slots whose value the form discards (statement position): a bare variable there may be dropped by the compiler on purpose
 # (hy.compiler.Result.expr_as_stmt: "ast.Names ... can't have any side effect"), which the documentation does not address;
 # the plain filler for these slots is therefore the call (v0 vN), whose evaluation is observable.
-DISCARDED = {"do": (0,), "for": (1,), "while": (1,), "when": (), "defn-decorators": (2,), "return": (), "with": ()}
+DISCARDED = {"eq-unary": (0,), "lt-unary": (0,), "is-unary": (0,), "do": (0,), "for": (1,), "while": (1,), "when": (), "defn-decorators": (2,), "return": (), "with": ()}
 CALLFILL = "(v0 {v})"
 
 BOUNDS = {
@@ -207,6 +210,10 @@ def build(desc):
         # dynamic expectation for a nesting: only the inner form's variables (the value of the inner form need not be truthy,
         # so what the outer form evaluates after it is not predicted); outer forms are covered by the un-nested cases
         reach = list(reached2) if (vs[slot] in reach and slot not in DISCARDED.get(T[ti][0], ())) else []
+        if T[tj][0] == "annotate" and reach:
+            # Python does not evaluate the annotation of a local variable; whether the nested form ends up in a function
+            # (lifted guard, comprehension function) depends on the compilation strategy, so it is not predicted when nested
+            reach = [v for v in reach if v != vs2[0]]
         allv += vs2
         dyn = dyn and dyn2
         label += ">" + T[tj][0]
